@@ -416,12 +416,18 @@ func (c *Context) QuoInteger(d, x, y *Decimal) (Condition, error) {
 	}
 	d.Coeff.Quo(a, b)
 	d.Form = Finite
-	if d.NumDigits() > int64(c.Precision) {
+	impossible := d.NumDigits() > int64(c.Precision)
+	if impossible {
 		d.Set(decimalNaN)
 		res |= DivisionImpossible
 	}
 	d.Exponent = 0
 	d.Negative = neg
+	if !impossible {
+		// No digit is rounded away, but an integer of up to Precision
+		// digits can still lie above the context's exponent range.
+		res |= c.round(d, d)
+	}
 	return c.goError(res)
 }
 
